@@ -40,6 +40,15 @@ ASSUMPTIONS = ["scenes/problems as in C02-C05: disjoint rectangles, free connect
                "offsets are multiples of 2^-10 with |offset| <= 64",
                "single-threaded use; the two runs happen in one process"]
 
+EXPLANATION = ("(A) Logic half, Lean theorems for all inputs (Props/C20.lean): the geometry predicates the router decides with are "
+               "invariant (orientation-signed) under translations and the 8 symmetries of the square; Manhattan length, squared leg "
+               "lengths, bend count and obstacle-freeness of a route are invariant, so r -> F r is a cost-preserving bijection of valid "
+               "routes and the optimal cost is frame-independent; the VPSC optimum is unique, translation-equivariant and independent "
+               "of variable/constraint order; the scan-line order is independent of address ranks when centres are distinct. "
+               "(B) Runtime half, observed: every case is executed twice in one process with heap scrambling and unrelated work in "
+               "between (bit-identity of routes, solver positions, removeoverlaps; layouts to 1e-9), translated by multiples of 2^-10, "
+               "under the 7 non-trivial symmetries (costs) and with permuted VPSC input order. Determinism itself is sampled, not proved.")
+
 def plan(tier, seed, searching):
     return [dict(hargs=["--seed", str(seed), "--tier", tier, "--scale", "8" if searching else "1"])]
 
